@@ -123,7 +123,7 @@ func gen(t *rapid.T) Case {
 	if c.API == "struct" && c.Layout != "D" && rapid.IntRange(0, 4).Draw(t, "crossnames") == 3 {
 		c.Layout = "E" // tags and Go field names form a cycle: the tag has to win over the name
 	}
-	c.DecodeAs = rapid.SampledFrom([]string{"concrete", "iface"}).Draw(t, "decodeas")
+	c.DecodeAs = rapid.SampledFrom([]string{"concrete", "iface", "same"}).Draw(t, "decodeas") // same: the field type the record was written with (differs from concrete for LineString only)
 	c.Reuse = rapid.Bool().Draw(t, "reuse")
 	n := rapid.IntRange(0, 8).Draw(t, "nrec")
 	if rapid.IntRange(0, 9).Draw(t, "many") == 0 {
@@ -492,6 +492,17 @@ func run(c Case) (v vkit.Verdict) {
 		case "LineString":
 			if iface {
 				res, msg = structRT[geom.LineString, geom.Geom](c, file, cast[geom.LineString])
+			} else if c.DecodeAs == "same" {
+				// read back into the very struct type that was written: a geom.LineString field
+				if p := vkit.Catch(func() { res, msg = structRT[geom.LineString, geom.LineString](c, file, cast[geom.LineString]) }); p != "" {
+					return v.Fail("reading the records back into the struct type they were written from (geom.LineString field) panicked: %s", p)
+				}
+				for k := range res {
+					if ls, ok := res[k].g.(geom.LineString); ok {
+						res[k].g = geom.MultiLineString{ls} // compared part by part like the other decodings
+					}
+				}
+				v.Class("linestring_read_back_as_linestring")
 			} else {
 				res, msg = structRT[geom.LineString, geom.MultiLineString](c, file, cast[geom.LineString])
 			}
